@@ -114,6 +114,10 @@ def gen_case(rng, tag):
             if rng.random() < 0.2:
                 # shortly after a full hour of real time (the non-drop timecode is still in the hour before)
                 start = rng.choice([1, 2, 5, 23]) * 3600 * 10 ** 6 + rng.choice([100000, 1500000, 3000000, 3590000, 3700000]) + W * CW
+            elif rng.random() < 0.2:
+                # shortly after a full minute of timecode: a long caption's load line begins in the minute before
+                start = rng.choice([1, 2, 10, 59, 61]) * 1800 * CW + rng.choice([3, 10, 30, 60, 90, 100]) * CW
+                start = max(start, W * CW)
         else:
             start = t + (W + slack) * CW
         start = int(start) + 1
